@@ -132,6 +132,11 @@ def getRemedies (pt : PTree) (g : Globals) (method : String) (us : List Part) : 
     | none => []),
    (g.remedies.filter (·.enabled)).map (·.name))
 
+/-- `DispatchOnRequest` when every remedy is a fixed-response one and the request asks for an early
+    response: remedies run in the order endpoint-scoped, then global; the first one answers. -/
+def dispatchFirst (pt : PTree) (g : Globals) (method : String) (us : List Part) : Option String :=
+  ((getRemedies pt g method us).1 ++ (getRemedies pt g method us).2).head?
+
 def getDiagnoses (pt : PTree) (g : Globals) (method : String) (us : List Part) : List String × List String :=
   let s := select pt method us
   ((match s.policy with
